@@ -15,7 +15,7 @@
 
 import six
 
-from genshi.core import QName, Stream
+from genshi.core import QName, Stream, START
 from genshi.path import Path
 from genshi.template.base import TemplateRuntimeError, TemplateSyntaxError, \
                                  EXPR, _apply_directives, _eval_expr
@@ -166,9 +166,12 @@ class AttrsDirective(Directive):
 
     def __call__(self, stream, directives, ctxt, **vars):
         def _generate():
-            kind, (tag, attrib), pos  = next(stream)
-            attrs = _eval_expr(self.expr, ctxt, vars)
+            kind, data, pos = next(stream)
+            # without a start tag the element is gone (py:replace): nothing
+            # to add attributes to
+            attrs = kind is START and _eval_expr(self.expr, ctxt, vars)
             if attrs:
+                tag, attrib = data
                 if isinstance(attrs, Stream):
                     try:
                         attrs = next(iter(attrs))
@@ -180,7 +183,8 @@ class AttrsDirective(Directive):
                     (QName(n), v is not None and six.text_type(v).strip() or None)
                     for n, v in attrs
                 ]
-            yield kind, (tag, attrib), pos
+                data = tag, attrib
+            yield kind, data, pos
             for event in stream:
                 yield event
 
@@ -211,6 +215,9 @@ class ContentDirective(Directive):
                                       'as an element', template.filepath,
                                       *pos[1:])
         expr = cls._parse_expr(value, template, *pos[1:])
+        if not stream or stream[0][0] is not START:
+            # the element is gone (py:replace): there is no content to replace
+            return None, stream
         return None, [stream[0], (EXPR, expr, pos),  stream[-1]]
 
 
@@ -537,13 +544,17 @@ class StripDirective(Directive):
 
     def __call__(self, stream, directives, ctxt, **vars):
         def _generate():
-            if not self.expr or _eval_expr(self.expr, ctxt, vars):
-                next(stream) # skip start tag
-                previous = next(stream)
+            # without a start tag the element is gone (py:replace): nothing
+            # to strip
+            first = next(stream, None)
+            if first is not None and first[0] is START and \
+                    (not self.expr or _eval_expr(self.expr, ctxt, vars)):
+                previous = next(stream) # skip start tag
                 for event in stream:
                     yield previous
                     previous = event
-            else:
+            elif first is not None:
+                yield first
                 for event in stream:
                     yield event
         return _apply_directives(_generate(), directives, ctxt, vars)
